@@ -21,22 +21,45 @@ SPEC = {
              "quiescent point; distinct = distinct case."),
     "shards": {"quick": 16, "thorough": 16},
     "min_counts": {"quick": {"evaluations": 300, "wf_evals": 10000, "steps_executed": 3000, "rejections_checked": 100,
-                             "populate_yields": 300, "histories_on_fibers_without_default": 20, "unexpected_exceptions": 200}},
+                             "populate_yields": 300, "histories_on_fibers_without_default": 20, "histories_on_free_multilevel_trees": 100, "unexpected_exceptions": 200}},
     "assumptions": [
         "ordered/unique fibers only; the deprecated insertOrLookup is in the alphabet, the deprecated insert/setDefault are not",
         "multi-level trees are tensors; free fibers are one level deep (the default of an interior level of a free fiber is not defined), "
         "some of them built with default=None so that insertions of absent coordinates are rejected half-way through an operation",
         "updateCoords is given injective functions only (uniqueness is the caller's obligation per its docstring)",
-        "free (unowned) fibers are used at depth 1 only: without ranks an empty interior fiber has no way to know its payload type",
+        "free (unowned) trees of 2-3 levels hold no empty sub-fibers and are driven by full-depth reference insertions, reads and leaf-level "
+        "dense reference iteration only (without ranks an empty interior fiber has no way to know its payload type); all other histories "
+        "on free fibers are one level deep",
         "raw sub-fibers are not appended/assigned into tensor-owned interior fibers (that bypasses the tensor's ranks)",
     ],
 }
 
 
+FREE_DEEP_OPS = ["ref", "ref", "ref", "get", "iterref", "stale"]
+
+
 def generate(rng, tier, shard, nshards, mon):
     n = (2000 if tier == "quick" else 16000) // nshards
     lo, hi = (5, 40) if tier == "quick" else (5, 120)
-    for _ in range(n):
+    for i in range(n):
+        if i % 8 == 5:
+            # a free (unowned) tree of 2-3 levels without empty sub-fibers, driven by full-depth reference insertions and
+            # leaf-level dense reference iteration only: each new fiber learns its payload type from its siblings
+            depth = rng.choice([2, 3])
+            ext = [rng.randint(2, 4) for _ in range(depth)]
+            spec = []
+            while not spec:
+                spec = gen.rand_tree_spec(rng, ext, rng.choice([0.7, 1.0]), 0.0, 0)
+            init = {"depth": depth, "ext": ext, "default": 0, "spec": spec, "own": "free", "shape": None, "ctor": "Fiber",
+                    "seed": rng.randrange(1 << 30), "free_deep": True}
+            ops = history.gen_ops(rng, init, rng.randint(3, 15), FREE_DEEP_OPS)
+            for op in ops:
+                if op["op"] == "iterref":
+                    op["path"] = [rng.randrange(8) for _ in range(depth - 1)]       # a leaf-level fiber
+                if op["op"] == "ref":
+                    op["cp"] = False
+            yield {"init": init, "ops": ops}
+            continue
         init = history.gen_init(rng, max_depth=3, ctors=["fromFiber", "fromFiber", "fromUncompressed", "empty", "fromRandom",
                                                          "deepcopy", "fromYAMLfile", "makePopulated"])
         ops = history.gen_ops(rng, init, rng.randint(lo, hi), history.C01_OPS)
@@ -95,6 +118,8 @@ class _Hooks(history.Hooks):
 def run_case(case, mon):
     h = _Hooks(mon)
     n_ops = len(case["ops"])
+    if case["init"].get("free_deep"):
+        mon.count("histories_on_free_multilevel_trees")
     if case["init"]["default"] is None:
         mon.count("histories_on_fibers_without_default")
     history.run_history(case["init"], case["ops"], h)
